@@ -1,7 +1,7 @@
 //! `check <ID> --tier quick|thorough [--seed N] [--replay FILE]`
 #![allow(dead_code, unused_imports, unused_variables, unused_assignments, clippy::all)]
-mod common;
-mod props;
+use ilverif::common;
+use ilverif::props;
 
 use common::known::KnownSet;
 use common::{Ctx, Tier};
